@@ -216,7 +216,9 @@ pub fn script_for(focus: &str) -> Option<Vec<ScriptOp>> {
         }
         // a free list of several pages (> 1022 freed leaf pages) is written, read back by a reopen (the portions of a
         // multi-page list must come back in the same order), drained and refilled by commits after further reopens
-        "script-freelist-reopen" => Some(vec![Fill(3300, 1300), DeleteAll, Reopen, Fill(40, 1300), Reopen, Fill(40, 1300), Fill(900, 1300), DeleteAll, Reopen, Fill(300, 1300), Reopen, Fill(30, 700)]),
+        "script-freelist-reopen" => Some(vec![Fill(3300, 1300), DeleteAll, Reopen, Fill(40, 1300), Reopen, Fill(40, 1300), Fill(900, 1300), DeleteAll, Reopen, Fill(300, 1300), Reopen, Fill(30, 700),
+            // … and after a reopen ONE commit needs more pages than the list read back holds (the cached length decides between list and frontier)
+            DeleteAll, Reopen, Fill(5000, 1300)]),
         // a sub-trie two page levels down crosses the page-elision threshold (20 leaves) upwards, downwards and
         // upwards again: pages that were elided get materialised (their WAL diff must carry the reconstructed
         // nodes) and materialised ones get elided
